@@ -40,6 +40,8 @@ def units(tier, seed):
         {"sid": "topmarks", "family": "topmarks", "size": 5 if q else 6, "donor": ("topmarks", 3 if q else 5)},
         {"sid": "basic", "family": "links", "size": 5 if q else 6, "donor": ("links", 4)},
         {"sid": "inlstrict", "family": "inlstrict", "size": 4 if q else 5, "donor": ("inlstrict", 3 if q else 4)},
+        # inline nodes with content, one of them an atom (atom != leaf)
+        {"sid": "chips", "family": "chips", "size": 5 if q else 6, "donor": ("chips", 4 if q else 5), "blocks": 4},
     ]
     extra = [
         {"sid": "list", "family": "lists_q", "size": 10 if q else 12, "donor": ("lists_q", 8 if q else 10)},
@@ -53,10 +55,15 @@ def units(tier, seed):
         specs.append(extra[seed % len(extra)])
     else:
         specs.extend(extra)
-    return common.doc_units(PROPERTY_ID, specs, per_scope_blocks=8 if q else 16)
+    out = common.doc_units(PROPERTY_ID, specs, per_scope_blocks=8 if q else 16)
+    # isolation pairs: same names / JSON / expression strings, different meaning, both creation orders
+    out.extend(common.pairseq_units(PROPERTY_ID, 4 if q else 5, 3 if q else 4))
+    return out
 
 
 def run_unit(u):
+    if u.get("kind") == "pairseq":
+        return common.run_pairseq(u, run_unit, PROPERTY_ID)
     res = engine.UnitResult(PROPERTY_ID)
     c, sc, docs = common.unit_docs(u)
     pool = common.pool_slices(u["sid"], u["donor"][0], u["donor"][1])
